@@ -20,3 +20,13 @@ chk("C03", "exploration", "runtime monitoring: valued reports of the real binary
     "Valued reports (-v V) of generated journals with tree-shaped price histories are compared cell by cell with quantity x latest price computed in exact rationals; the allowed deviation is an explicit bound derived from the number of 8-decimal truncation steps. Journals with a planted missing price must fail with a diagnostic and empty stdout.",
     "Trusts the reference price walk (forest-shaped graphs only, so chains are unique), the derived window corollary (value shown = mark at column minus mark before the window) and the budget formula; --close=false reports only.",
     "DESIGN.md §4 C03")
+
+chk("C06", "exploration", "runtime monitoring: repeated executions of the real binary under varied GOMAXPROCS / schedule-perturbation hook / map randomisation, byte comparison of stdout and exit status",
+    "Each command of a tie-rich command set is run N times on identical inputs while only GOMAXPROCS, the schedule-perturbation seed (verif hook in cpr.Push/Pop) and Go's native map randomisation vary; any second distinct (stdout, exit) is a violation. Evidence reports how many distinct batch-arrival orders the perturbation actually produced.",
+    "Detection is probabilistic (a k-way map-order tie escapes N runs with probability ~k(1/k)^N); silence is sound. stderr is not compared.",
+    "DESIGN.md §4 C06")
+
+chk("C05", "exploration", "runtime monitoring: metamorphic comparison of real runs on permuted / include-tree-split variants under perturbed schedules",
+    "For each base journal, variants that only permute the directives and/or distribute them over an include tree are run under drawn GOMAXPROCS and schedule-perturbation seeds; the check verdict, every balance report byte for byte, and the printed journal modulo order inside (date, kind) groups must equal the base's.",
+    "Samples permutations, tree shapes and schedules; diagnostics of rejected journals are not compared. Same-day double price declarations for one pair are excluded as in the statement.",
+    "DESIGN.md §4 C05")
